@@ -551,10 +551,11 @@ pub fn run_c09(cfg: &Cfg) -> Report {
         }
     }));
     // malformed: must be refused
-    rep.merge(par_cases(cfg, "names.malformed", 6 * 6 * 8 * 2 + 4, |cx| {
+    rep.merge(par_cases(cfg, "names.malformed", 6 * 6 * 8 * 2 + 12, |cx| {
         let mut r = cx.rng.clone();
         let s: String = if cx.idx >= 6 * 6 * 8 * 2 {
-            ["", "\\", ".", "ABCD."][(cx.idx - 6 * 6 * 8 * 2) as usize].to_string()
+            // (a second or third leading backslash makes the first segment five or six characters long)
+            ["", "\\", ".", "ABCD.", "\\\\ABCD", "\\\\\\ABCD", "\\\\_SB_.PCI0", "\\.ABCD", ".ABCD", "ABCD..EFGH", "\\ABCD.", "AB.CD"][(cx.idx - 6 * 6 * 8 * 2) as usize].to_string()
         } else {
             let root = cx.idx % 2 == 1;
             let i = cx.idx / 2;
@@ -658,8 +659,19 @@ fn res_case(cx: &mut CaseCtx, r: &Res) -> bool {
     cx.eval();
     cx.obs();
     let mut b = Builder::new(false);
-    let got = to_vec(b.res(r));
+    let o = b.res(r);
+    let got = to_vec(o);
+    // the same descriptor delivered to a sink that implements only the mandatory byte method
+    let mut bo = crate::sinks::ByteOnly::default();
+    o.to_aml_bytes(&mut bo);
     drop(b);
+    if bo.0 != got {
+        cx.violation(
+            format!("resource descriptor {:?} is delivered differently to a byte-only sink than to the vector sink", r),
+            obj(vec![("vector_sink", hex(&got).into()), ("byte_only_sink", hex(&bo.0).into())]),
+        );
+        return false;
+    }
     let want = descriptor(r);
     if got != want {
         let i = got.iter().zip(want.iter()).position(|(a, b)| a != b).unwrap_or(got.len().min(want.len()));
@@ -1182,6 +1194,57 @@ pub fn run_c16(cfg: &Cfg) -> Report {
                 cx.rep.distinct(&s);
             }
             Ok(b) => cx.violation(format!("malformed UUID {:?} is accepted", s), obj(vec![("emitted", hex(&b).into())])),
+        }
+    }));
+    // separators moved / duplicated / bunched while the length stays 36 and 32 hex digits remain
+    rep.merge(par_cases(cfg, "uuid.moved_separators", cfg.scaled(if thorough { 200_000 } else { 20_000 }), |cx| {
+        let mut r = cx.rng.clone();
+        let good = gen_uuid(&mut r);
+        let digits: Vec<u8> = good.bytes().filter(|c| *c != b'-').collect();
+        // choose 4 separator positions among 36 that are not the canonical {8,13,18,23}
+        let mut pos: Vec<usize> = Vec::new();
+        match cx.idx % 4 {
+            0 => {
+                // move exactly one separator by +-1..3
+                pos = vec![8, 13, 18, 23];
+                let k = r.usize_below(4);
+                let d = 1 + r.usize_below(3);
+                pos[k] = if r.bool() { pos[k] + d } else { pos[k] - d };
+            }
+            1 => pos = vec![0, 1, 2, 3],
+            2 => pos = vec![32, 33, 34, 35],
+            _ => {
+                while pos.len() < 4 {
+                    let p = r.usize_below(36);
+                    if !pos.contains(&p) {
+                        pos.push(p);
+                    }
+                }
+            }
+        }
+        pos.sort();
+        pos.dedup();
+        if pos == vec![8, 13, 18, 23] || pos.len() != 4 {
+            return;
+        }
+        let mut s = String::new();
+        let mut di = 0;
+        for i in 0..36 {
+            if pos.contains(&i) {
+                s.push('-');
+            } else {
+                s.push(digits[di] as char);
+                di += 1;
+            }
+        }
+        cx.eval();
+        cx.obs();
+        match catches(|| to_vec(&aml::Uuid::new(&s))) {
+            Err(_) => {
+                cx.rep.cov("misplaced_separator_refused");
+                cx.rep.distinct(&pos);
+            }
+            Ok(b) => cx.violation(format!("UUID {:?} with misplaced separators is accepted", s), obj(vec![("emitted", hex(&b).into())])),
         }
     }));
     let _ = term_json;
